@@ -345,6 +345,41 @@ func runDecodex(ctx *core.Ctx, tier string) {
 		texts[`[{"op":"copy","from":"/`+long+`"}]`] = true
 		texts[`[{"op":"replace","path":"/a","value":[`+strings.Repeat("1,", n)+`1]}]`] = true
 	}
+	// operation-count sweep: every count 0..40 and the neighbourhood of 64 .. 1024; a defective operation as
+	// the first, the middle and each of the last four elements
+	for _, n := range sweepSizes(40, 64, 128, 256, 300, 512, 1024) {
+		parts := make([]string, n)
+		for i := range parts {
+			parts[i] = goodOp(i)
+		}
+		texts["["+strings.Join(parts, ",")+"]"] = true
+		for _, bad := range []string{`{"op":"remove"}`, `{"op":"bogus","path":"/x"}`, `{"op":"copy","path":"/x"}`, `null`} {
+			for _, pos := range []int{0, n / 2, n - 4, n - 3, n - 2, n - 1} {
+				if pos < 0 || pos >= n {
+					continue
+				}
+				keep := parts[pos]
+				parts[pos] = bad
+				texts["["+strings.Join(parts, ",")+"]"] = true
+				parts[pos] = keep
+			}
+		}
+	}
+	// input-size sweep: the same few operations in texts padded with blanks to sizes around 4 KiB, 64 KiB and
+	// 1 MiB (padding in front, between the operations, behind); the accessors must still answer per operation
+	for _, size := range []int{4095, 4096, 4097, 65535, 65536, 65537, 1<<20 - 1, 1 << 20, 1<<20 + 1} {
+		for _, ops := range [][]string{
+			{`{"op":"add","path":"/a","value":{"v":1}}`, `{"op":"remove","path":"/b"}`, `{"op":"copy","from":"/c","path":"/d"}`},
+			{`{"op":"add","path":"/a","value":1}`, `{"op":"replace","path":"/a"}`},
+			{`{"op":"copy","from":"/c","path":"/d"}`, `{"op":"move","path":"/e"}`},
+		} {
+			body := strings.Join(ops, ",")
+			pad := strings.Repeat(" ", size-len(body)-2)
+			texts[pad+"["+body+"]"] = true
+			texts["["+body+"]"+pad] = true
+			texts["["+ops[0]+","+pad+strings.Join(ops[1:], ",")+"]"] = true
+		}
+	}
 	var extras strings.Builder
 	for i := 0; i < 40; i++ {
 		fmt.Fprintf(&extras, `"x%02d":{"op":"bogus"},`, i)
@@ -378,7 +413,7 @@ func init() {
 		Run: func(ctx *core.Ctx, tier string) {
 			ctx.Rep.Rule = "patch texts built from one valid operation per kind by ALL single and ALL pairs (thorough: triples) of member mutations " +
 				"(delete; retype to null/0/true/\"str\"/[]/{}; unknown, wrong-case and \\u-escaped op names; member names renamed by case or \\u-escaped; identical duplicates), alone / first / last beside a valid neighbour; " +
-				"element-type and root-type changes; plus every string over the 16-symbol alphabet up to length 4 (thorough 5). Each judged by a reference acceptance predicate transcribed from the statement; accepted patches have Kind/Path/From/ValueInterface compared with the reference-decoded members. " +
+				"element-type and root-type changes; patches of every length 0..40 and around 64 .. 1024 operations with a defective operation first, in the middle and in each of the last four places; texts padded to 4 KiB / 64 KiB / 1 MiB (+-1); pointers and values of 63 .. 4097 bytes; plus every string over the 16-symbol alphabet up to length 4 (thorough 5). Each judged by a reference acceptance predicate transcribed from the statement; accepted patches have Kind/Path/From/ValueInterface compared with the reference-decoded members. " +
 				"states = distinct patch texts; non-trivial = texts that are well-formed JSON"
 			runDecodex(ctx, tier)
 			ctx.Rep.Validated = atomic.LoadInt64(&nExec)
